@@ -73,6 +73,16 @@ def mk(i, s, e, seqid="chr1", strand="+", type_="exon", source="src", frame=".")
     return {"id": "f%d" % i, "s": s, "e": e, "seqid": seqid, "strand": strand, "type": type_, "source": source, "frame": frame}
 
 
+def anonymise(feats):
+    """features without an ID attribute: stored under <featuretype>_<n>; equal columns then mean equal printed text"""
+    n = {}
+    out = []
+    for f in feats:
+        n[f["type"]] = n.get(f["type"], 0) + 1
+        out.append(dict(f, id="%s_%d" % (f["type"], n[f["type"]])))
+    return out
+
+
 def intervals(maxpos=8):
     return [(s, e) for s in range(1, maxpos + 1) for e in range(s, maxpos + 1)]
 
@@ -90,6 +100,9 @@ def gen_cases(rng, tier):
             cases.append({"k": "merge", "crit": CRIT_SETS[0], "feats": feats})
             if tier == "thorough" or n % 3 == 0:
                 cases.append({"k": "merge", "crit": CRIT_SETS[1 + n % (len(CRIT_SETS) - 1)], "feats": feats})
+            if len(set(combo)) < k and (tier == "thorough" or n % 2 == 0):
+                # repeated lines without an ID: distinct features whose text is identical
+                cases.append({"k": "merge", "crit": CRIT_SETS[0], "feats": anonymise(feats), "anon": True})
     # class mixtures
     nmix = 1500 if tier == "quick" else 20000
     for i in range(nmix):
@@ -106,6 +119,12 @@ def gen_cases(rng, tier):
             for f in feats:
                 f["seqid"], f["strand"], f["type"] = "chr1", "+", "exon"
         c = {"k": "merge", "crit": CRIT_SETS[i % len(CRIT_SETS)], "feats": feats}
+        if i % 5 == 2:
+            for j in range(1, len(feats)):
+                if rng.random() < 0.4:
+                    feats[j] = dict(feats[j - 1])
+            c["feats"] = anonymise(feats)
+            c["anon"] = True
         if i % 4 == 0:
             # previously merged objects: some of them went through merge() before, alone or in sub-lists
             c["pre"] = [sorted(rng.sample(range(len(feats)), rng.choice([1, 1, 2, min(3, len(feats))]))) for _ in range(rng.choice([1, 2]))]
@@ -117,7 +136,14 @@ def gen_cases(rng, tier):
         ivs = sorted((lambda s: (s, s + rng.randrange(0, 12)))(rng.randrange(1, 40)) for _ in range(k))
         mixed = rng.random() < 0.3
         feats = [mk(j, s, e, strand=rng.choice(["+", "-"]) if mixed else "+") for j, (s, e) in enumerate(ivs)]
-        cases.append({"k": "bp", "crit": CRIT_SETS[0] if rng.random() < 0.8 else ["seqid", "ov_end", "ftype"], "feats": feats})
+        c = {"k": "bp", "crit": CRIT_SETS[0] if rng.random() < 0.8 else ["seqid", "ov_end", "ftype"], "feats": feats}
+        if i % 6 == 1:
+            for j in range(1, len(feats)):
+                if rng.random() < 0.5:
+                    feats[j] = dict(feats[j - 1])
+            c["feats"] = anonymise(feats)
+            c["anon"] = True
+        cases.append(c)
     # merge_all: whole databases, several classes, no ties on (seqid, type, strand, start)
     nall = 250 if tier == "quick" else 4000
     for i in range(nall):
@@ -143,6 +169,8 @@ def valid_case(c):
             return False
         coq_criteria(c["crit"])
         ids = [f["id"] for f in c["feats"]]
+        if c.get("anon") and c["k"] in ("merge", "bp") and ids != [f["id"] for f in anonymise(c["feats"])]:
+            return False
         if len(set(ids)) != len(ids):
             return False
         for idx in c.get("pre", []):
@@ -170,18 +198,19 @@ def shrinks(c):
             yield dict(c, pre=c["pre"][:j] + c["pre"][j + 1:])
     else:
         for i in range(len(feats)):
-            yield dict(c, feats=feats[:i] + feats[i + 1:])
+            rest = feats[:i] + feats[i + 1:]
+            yield dict(c, feats=anonymise(rest) if c.get("anon") else rest)
     for i in range(len(c["crit"])):
         yield dict(c, crit=c["crit"][:i] + c["crit"][i + 1:])
 
 
-def build_db(feats, parent=None):
+def build_db(feats, parent=None, anon=False):
     import gffutils
     lines = []
     if parent:
         lines.append("\t".join(["chr1", "src", "mRNA", "1", "1000", ".", "+", ".", "ID=%s" % parent]))
     for f in feats:
-        attrs = "ID=%s" % f["id"] + (";Parent=%s" % parent if parent else "")
+        attrs = ("Name=x" if anon else "ID=%s" % f["id"]) + (";Parent=%s" % parent if parent else "")
         lines.append("\t".join([f["seqid"], f["source"], f["type"], str(f["s"]), str(f["e"]), ".", f["strand"], f["frame"], attrs]))
     return gffutils.create_db("\n".join(lines) + "\n", ":memory:", from_string=True)
 
@@ -205,7 +234,7 @@ def observe(outs, objs):
 
 def run_impl(c):
     if c["k"] == "merge":
-        db = build_db(c["feats"])
+        db = build_db(c["feats"], anon=c.get("anon", False))
         objs = [db[f["id"]] for f in c["feats"]]
         before = [str(x) for x in objs]
         a0 = sorted([k, v] for k, v in db._autoincrements.items())
@@ -255,7 +284,7 @@ def run_impl(c):
         except Exception as ex:
             after = ["err", L.err_class(ex)]
         return {"before": before, "mem": mem, "after": after}
-    db = build_db(c["feats"], parent="P")
+    db = build_db(c["feats"], parent="P", anon=c.get("anon", False))
     crit = py_criteria(c["crit"])
     out = {}
     for tag, m in (("plain", False), ("merged", True)):
